@@ -1,0 +1,11 @@
+//go:build verif
+
+package lastgersync
+
+import "database/sql"
+
+// VerifC16DB exposes the processor's database handle so that the verification harness can install SQL triggers that
+// make a chosen storage statement of ProcessBlock fail (storage-fault injection for properties C07 / C04).
+func VerifC16DB(p *VerifC16Processor) *sql.DB {
+	return p.database
+}
